@@ -78,8 +78,12 @@ func (r *bucketRegistry) unregisterBucket(bucket *Bucket) {
 	r.lock.Lock()
 	defer r.lock.Unlock()
 
+	if registered, ok := r.buckets[name]; !ok || registered.mutex != bucket.mutex {
+		// This handle's bucket was deleted (and the name possibly reused by a new bucket): nothing to release.
+		return
+	}
 	bucketCount := r.bucketCount[name]
-	if bucketCount < 0 {
+	if bucketCount == 0 {
 		warn("unregisterBucket couldn't find %v", bucket)
 		return
 	}
